@@ -182,6 +182,54 @@ def one_case(rng, flavour=None, max_sections=2500, fixed=None, timed=False):
     return {"spec": spec, "store": {str(k): sorted(v) for k, v in store.items()}, "run": run, "term": term, "x": x, "timed": timed}
 
 
+def outcome_never_heavy(rng, spec):
+    """outcome assignment in which many executions never report (for the search after a broken correspondence)"""
+    plan = {}
+
+    def outcome(r, run, w, node):
+        name = node.params["name"]
+        key = name.split(".vms.")[0] if ".vms." in name else name
+        seq = plan.setdefault(key, [r.choice(["PASS", "PASS", None, None, None, "FAIL"]) for _ in range(4)])
+        k = plan.setdefault(("count", key), 0)
+        plan[("count", key)] = k + 1
+        return seq[min(k, len(seq) - 1)]
+    return outcome
+
+
+def search_around(rng, case, n, max_sections=1500):
+    """the implementation alone on the graph and pools of `case` and on close variants of that graph (same states and tests:
+    all workers in one local swarm with every pool scope enabled; the worker restrictions of the tests dropped; other worker
+    sets, among them two and three workers of remote swarms) under n fresh schedules / outcome assignments (untimed, timed, many never-reported results): the search for a failing
+    input once the correspondence broke on that graph. Yields cases without a Coq term (the model is not consulted)."""
+    import copy
+    for k in range(n):
+        spec = copy.deepcopy(case["spec"])
+        variant = k % 6
+        if variant == 1:
+            spec["workers"] = copy.deepcopy(WORKER_SETS[min(len(spec["workers"]), 4) - 1])
+            spec["node_params"]["pool_scope"] = "own swarm cluster shared"
+            for leaf in spec["leaves"]:
+                if "only_workers" in leaf:
+                    leaf["only_workers"] = [i for i in leaf["only_workers"] if i < len(spec["workers"])] or [0]
+        elif variant == 2:
+            for leaf in spec["leaves"]:
+                leaf.pop("only_workers", None)
+        elif variant >= 3:
+            spec["workers"] = copy.deepcopy(rng.choice(WORKER_SETS[1:7]) if variant == 3 else WORKER_SETS[4] if variant == 4 else WORKER_SETS[6])
+            if variant > 3:
+                spec["node_params"]["pool_scope"] = "own swarm cluster shared"
+            for leaf in spec["leaves"]:
+                leaf.pop("only_workers", None)
+        timed = (k % 3 == 2)
+        g, workers, root = trav.build_graph(spec)
+        x = trav.Export(g, workers)
+        store = {} if variant else {(None if kk == "None" else kk): {tuple(t) for t in v} for kk, v in case["store"].items()}
+        run = trav.Run(g, workers, x, store, None, max_sections=max_sections)
+        policy = outcome_never_heavy(rng, spec) if k % 5 == 4 else outcome_policy(rng, spec)
+        run.go(rng, policy, wake_bias=rng.choice([0.2, 0.5, 0.9]), timed=timed)
+        yield {"spec": spec, "store": {str(kk): sorted(v) for kk, v in store.items()}, "run": run, "term": None, "x": x, "timed": timed, "agrees": True}
+
+
 def run_batch(ctx, n, flavours, tag, max_sections=2500, fixed=None, timed_share=0.0):
     """runs n traversals; returns the cases with 'diff' (index of the first differing section or None)"""
     cases = []
